@@ -34,9 +34,9 @@ type Case struct {
 	Kind     string                 `json:"kind"`
 	Expr     string                 `json:"expr,omitempty"`
 	ExprB64  string                 `json:"expr_b64,omitempty"` // expression bytes when they are not valid UTF-8
-	Doc      string                 `json:"doc,omitempty"` // JSON text
+	Doc      string                 `json:"doc,omitempty"`      // JSON text
 	Extra    map[string]interface{} `json:"extra,omitempty"`
-	Before   []string               `json:"before,omitempty"` // unrelated library calls made first (poison_test.go); nil: chosen from the case's hash
+	Before   []string               `json:"before,omitempty"`   // unrelated library calls made first (poison_test.go); nil: chosen from the case's hash
 	Note     string                 `json:"note,omitempty"`     // filled on failure: what was violated
 	Expected string                 `json:"expected,omitempty"` // filled on failure
 	Got      string                 `json:"got,omitempty"`      // filled on failure
@@ -392,8 +392,33 @@ func libCompileSearchTwice(expr string, doc interface{}) (first, again libOut) {
 				return
 			}
 		}
+		// and documents of the same shape with other values (the other zero, numbers that
+		// print in exponent form, other strings; arrays reversed)
+		for _, mode := range []int{3, 4} {
+			if p := safely(func() { _, _ = c.Search(varyDoc(doc, mode)) }); p != nil {
+				again.Panic = p
+				return
+			}
+		}
 		again.Compiled = true
 		again.Val, again.Err = c.Search(ref.DeepCopy(doc))
+		// a second compiled expression that sees the same-shape documents BEFORE the document
+		// itself (whatever the first evaluation of a value leaves behind is then left by another
+		// value): its answer is the one reported when it differs
+		for _, mode := range []int{3, 4} {
+			c2, err := jp.Compile(expr)
+			if err != nil {
+				break
+			}
+			_, _ = c2.Search(varyDoc(doc, mode))
+			var primed libOut
+			primed.Compiled = true
+			primed.Val, primed.Err = c2.Search(ref.DeepCopy(doc))
+			if showOut(primed) != showOut(again) {
+				again = primed
+				break
+			}
+		}
 	})
 	if first.Panic != nil && again.Panic == nil {
 		again.Panic = first.Panic
